@@ -1,15 +1,10 @@
 import FpgoVerif.Proofs.C06Seg
-/-! Representation invariant of the pointer-level model and per-operation preservation. -/
+/-! Representation invariant of the pointer-level model; `sync.Pool.Get` and `generateNode`. -/
 namespace FpgoVerif.C06
 local notation "Addr" => Nat
 
-
-theorem Seg.nil_of_none {f : Addr → Option Addr} {l} (h : Seg f none l) : l = [] := by cases h; rfl
-
-theorem Seg.last_eq {f : Addr → Option Addr} {o} {l : List Addr} (h : Seg f o l.reverse) : o = l.getLast? := by
-  rw [h.head, List.head?_reverse]
-
-structure Rep (q : Q) (vs : List Int) (chain pool : List Addr) : Prop where
+/-- everything except the `nodeCount` bookkeeping (which KeepNodePoolCount sets up front) -/
+structure Rep0 (q : Q) (vs : List Int) (chain pool : List Addr) : Prop where
   hnext : Seg q.next q.first chain
   hprev : Seg q.prev q.last chain.reverse
   hpool : Seg q.next q.poolFirst pool
@@ -17,7 +12,17 @@ structure Rep (q : Q) (vs : List Int) (chain pool : List Addr) : Prop where
   lt    : ∀ a ∈ chain ++ pool, a < q.fresh
   hval  : chain.map q.val = vs.map some
   hcount : q.count = chain.length
-  hnode  : q.nodeCount = pool.length
+  /- the sync.Pool holds each node once, none of them is part of the queue or its free list,
+     and every one of them is zeroed -/
+  gnd   : q.gc.Nodup
+  gdisj : ∀ a ∈ q.gc, a ∉ chain ++ pool
+  glt   : ∀ a ∈ q.gc, a < q.fresh
+  gzero : ∀ a ∈ q.gc, q.next a = none ∧ q.prev a = none ∧ q.val a = none
+
+/-- the representation invariant: `chain` are the addresses of the stored items from head to tail,
+    `vs` their values, `pool` the free list -/
+structure Rep (q : Q) (vs : List Int) (chain pool : List Addr) : Prop extends Rep0 q vs chain pool where
+  hnode : q.nodeCount = pool.length
 
 theorem map_upd_of_not_mem {β} (f : Addr → β) (a : Addr) (b : β) (l : List Addr) (h : a ∉ l) :
     l.map (upd f a b) = l.map f := by
@@ -25,138 +30,114 @@ theorem map_upd_of_not_mem {β} (f : Addr → β) (a : Addr) (b : β) (l : List 
   intro x hx
   exact upd_other _ _ _ _ (fun e => h (e ▸ hx))
 
+theorem Rep0.chain_nodup {q vs chain pool} (h : Rep0 q vs chain pool) : chain.Nodup :=
+  (List.nodup_append.mp h.nd).1
+theorem Rep0.pool_nodup {q vs chain pool} (h : Rep0 q vs chain pool) : pool.Nodup :=
+  (List.nodup_append.mp h.nd).2.1
+theorem Rep0.disj {q vs chain pool} (h : Rep0 q vs chain pool) {a} (hc : a ∈ chain) : a ∉ pool :=
+  fun hp => (List.nodup_append.mp h.nd).2.2 a hc a hp rfl
+theorem Rep0.length_eq {q vs chain pool} (h : Rep0 q vs chain pool) : vs.length = chain.length := by
+  have := congrArg List.length h.hval; simpa using this.symm
+
+/-- the scalar fields an auxiliary step leaves alone -/
+structure Same (q q' : Q) : Prop where
+  first : q'.first = q.first
+  last : q'.last = q.last
+  count : q'.count = q.count
+  poolFirst : q'.poolFirst = q.poolFirst
+  nodeCount : q'.nodeCount = q.nodeCount
+
+/-- `sync.Pool.Get`, whatever the runtime chooses: the node is zeroed, unknown to the queue, and
+    the representation is untouched -/
+theorem poolGet_spec {q : Q} {vs chain pool} (h : Rep0 q vs chain pool) (q' : Q) (n : Addr)
+    (hg : poolGet q = (q', n)) :
+    Rep0 q' vs chain pool ∧ Same q q' ∧ n ∉ chain ++ pool ∧ n ∉ q'.gc ∧ n < q'.fresh ∧
+      q'.next n = none ∧ q'.prev n = none ∧ q'.val n = none := by
+  unfold poolGet at hg
+  cases hp : q.gc[q.pick q.gets]? with
+  | some a =>
+    rw [hp] at hg
+    simp only [Prod.mk.injEq] at hg
+    obtain ⟨rfl, rfl⟩ := hg
+    have ha : a ∈ q.gc := List.mem_of_getElem? hp
+    have hz := h.gzero a ha
+    refine ⟨⟨h.hnext, h.hprev, h.hpool, h.nd, h.lt, h.hval, h.hcount, h.gnd.erase a, ?_, ?_, ?_⟩,
+      ⟨rfl, rfl, rfl, rfl, rfl⟩, h.gdisj a ha, ?_, h.glt a ha, hz.1, hz.2.1, hz.2.2⟩
+    · intro b hb; exact h.gdisj b (List.mem_of_mem_erase hb)
+    · intro b hb; exact h.glt b (List.mem_of_mem_erase hb)
+    · intro b hb; exact h.gzero b (List.mem_of_mem_erase hb)
+    · intro hm; exact ((h.gnd.mem_erase_iff).mp hm).1 rfl
+  | none =>
+    rw [hp] at hg
+    simp only [Prod.mk.injEq] at hg
+    obtain ⟨rfl, rfl⟩ := hg
+    have hfresh : q.fresh ∉ chain ++ pool := fun hm => Nat.lt_irrefl _ (h.lt _ hm)
+    have hfc : q.fresh ∉ chain := fun hm => hfresh (List.mem_append_left _ hm)
+    have hfp : q.fresh ∉ pool := fun hm => hfresh (List.mem_append_right _ hm)
+    have hfg : q.fresh ∉ q.gc := fun hm => Nat.lt_irrefl _ (h.glt _ hm)
+    refine ⟨⟨h.hnext.frame _ _ hfc, h.hprev.frame _ _ (by simpa using hfc), h.hpool.frame _ _ hfp, h.nd, ?_, ?_,
+      h.hcount, h.gnd, h.gdisj, ?_, ?_⟩, ⟨rfl, rfl, rfl, rfl, rfl⟩, hfresh, hfg, ?_, by simp, by simp, by simp⟩
+    · intro a ha; have := h.lt a ha; show a < q.fresh + 1; omega
+    · show chain.map (upd q.val q.fresh none) = _
+      rw [map_upd_of_not_mem _ _ _ _ hfc]; exact h.hval
+    · intro a ha; have := h.glt a ha; show a < q.fresh + 1; omega
+    · intro a ha
+      have hne : a ≠ q.fresh := fun e => hfg (e ▸ ha)
+      have := h.gzero a ha
+      simp only [upd_other _ _ _ _ hne]; exact this
+    · show q.fresh < q.fresh + 1; omega
+
 /-- generateNode hands out a node that is in neither list, with cleared links, and keeps the representation -/
 theorem generateNode_spec {q : Q} {vs chain pool} (h : Rep q vs chain pool) (q' : Q) (n : Addr)
     (hg : generateNode q = (q', n)) :
-    ∃ pool', Rep q' vs chain pool' ∧ n ∉ chain ++ pool' ∧ n < q'.fresh ∧
-      q'.next n = none ∧ q'.prev n = none ∧
+    ∃ pool', Rep q' vs chain pool' ∧ pool'.length = pool.length - 1 ∧ n ∉ chain ++ pool' ∧ n ∉ q'.gc ∧
+      n < q'.fresh ∧ q'.next n = none ∧ q'.prev n = none ∧
       q'.first = q.first ∧ q'.last = q.last ∧ q'.count = q.count := by
-  obtain ⟨hnext, hprev, hpool, nd, lt, hval, hcount, hnode⟩ := h
   unfold generateNode at hg
   cases hp : q.poolFirst with
   | none =>
-    rw [hp] at hpool hg
-    have hpl : pool = [] := hpool.nil_of_none
+    rw [hp] at hg
+    have hpl : pool = [] := (hp ▸ h.hpool).nil_of_none
     subst hpl
-    have hfresh : q.fresh ∉ chain := fun hm => Nat.lt_irrefl _ (lt _ (by simpa using hm))
-    simp only [Prod.mk.injEq] at hg
-    obtain ⟨rfl, rfl⟩ := hg
-    refine ⟨[], ⟨?_, ?_, ?_, by simpa using nd, ?_, ?_, hcount, hnode⟩, by simpa using hfresh, ?_, by simp, by simp, rfl, rfl, rfl⟩
-    · exact hnext.frame _ _ hfresh
-    · exact hprev.frame _ _ (by simpa using hfresh)
-    · simp only [hp]; exact .nil
-    · intro a ha; have := lt a ha; show a < q.fresh + 1; omega
-    · simp only; rw [map_upd_of_not_mem _ _ _ _ hfresh]; exact hval
-    · show q.fresh < q.fresh + 1; omega
+    obtain ⟨h0, hs, hn, hng, hlt, hnn, hnp, _⟩ := poolGet_spec h.toRep0 q' n hg
+    exact ⟨[], ⟨h0, by rw [hs.nodeCount]; exact h.hnode⟩, rfl, hn, hng, hlt, hnn, hnp, hs.first, hs.last, hs.count⟩
   | some m =>
-    rw [hp] at hpool hg
+    rw [hp] at hg
     simp only [Prod.mk.injEq] at hg
     obtain ⟨rfl, rfl⟩ := hg
+    have hpool := hp ▸ h.hpool
     cases hpool with
     | cons _ pool' hs =>
-      have hnd2 : (chain ++ m :: pool').Nodup := nd
-      have hn_chain : m ∉ chain := by
-        intro hm
-        have := (List.nodup_append.mp hnd2).2.2 m hm m List.mem_cons_self
-        exact this rfl
-      have hn_pool' : m ∉ pool' := by
-        have := (List.nodup_append.mp hnd2).2.1
-        exact (List.nodup_cons.mp this).1
-      refine ⟨pool', ⟨?_, ?_, ?_, ?_, ?_, hval, hcount, ?_⟩, ?_, ?_, by simp, by simp, rfl, rfl, rfl⟩
-      · exact hnext.frame _ _ hn_chain
-      · exact hprev.frame _ _ (by simpa using hn_chain)
+      have hnd2 : (chain ++ m :: pool').Nodup := h.nd
+      have hn_chain : m ∉ chain := fun hm => h.disj hm List.mem_cons_self
+      have hn_pool' : m ∉ pool' := (List.nodup_cons.mp h.pool_nodup).1
+      have hmg : m ∉ q.gc := fun hm => h.gdisj m hm (List.mem_append_right _ List.mem_cons_self)
+      refine ⟨pool', ⟨⟨?_, ?_, ?_, ?_, ?_, h.hval, h.hcount, h.gnd, ?_, h.glt, ?_⟩, ?_⟩, by simp, ?_, hmg, ?_, by simp, by simp, rfl, rfl, rfl⟩
+      · exact h.hnext.frame _ _ hn_chain
+      · exact h.hprev.frame _ _ (by simpa using hn_chain)
       · exact hs.frame _ _ hn_pool'
       · have h1 := List.nodup_append.mp hnd2
         refine List.nodup_append.mpr ⟨h1.1, (List.nodup_cons.mp h1.2.1).2, ?_⟩
         intro a ha b hb; exact h1.2.2 a ha b (List.mem_cons_of_mem _ hb)
       · intro a ha
-        apply lt
-        rcases List.mem_append.mp ha with h | h
-        · exact List.mem_append_left _ h
-        · exact List.mem_append_right _ (List.mem_cons_of_mem _ h)
-      · simp [hnode]
+        apply h.lt
+        rcases List.mem_append.mp ha with h' | h'
+        · exact List.mem_append_left _ h'
+        · exact List.mem_append_right _ (List.mem_cons_of_mem _ h')
+      · intro a ha hm
+        apply h.gdisj a ha
+        rcases List.mem_append.mp hm with h' | h'
+        · exact List.mem_append_left _ h'
+        · exact List.mem_append_right _ (List.mem_cons_of_mem _ h')
+      · intro a ha
+        have hne : a ≠ m := fun e => hmg (e ▸ ha)
+        have := h.gzero a ha
+        simp only [upd_other _ _ _ _ hne]; exact this
+      · have := h.hnode; simp at this; show q.nodeCount - 1 = _; omega
       · intro hm
-        rcases List.mem_append.mp hm with h | h
-        · exact hn_chain h
-        · exact hn_pool' h
-      · exact lt m (List.mem_append_right _ List.mem_cons_self)
-
-/-- the address generateNode will hand out -/
-def n_of (q : Q) : Nat := (generateNode q).2
-
-theorem nodup_snoc_pool {chain pool : List Nat} {n : Nat} (nd : (chain ++ pool).Nodup) (hn : n ∉ chain ++ pool) :
-    ((chain ++ [n]) ++ pool).Nodup := by
-  have h1 := List.nodup_append.mp nd
-  have hnc : n ∉ chain := fun h => hn (List.mem_append_left _ h)
-  have hnp : n ∉ pool := fun h => hn (List.mem_append_right _ h)
-  refine List.nodup_append.mpr ⟨?_, h1.2.1, ?_⟩
-  · refine List.nodup_append.mpr ⟨h1.1, by simp, ?_⟩
-    intro a ha b hb; simp at hb; subst hb; exact fun e => hnc (e ▸ ha)
-  · intro a ha b hb
-    rcases List.mem_append.mp ha with h | h
-    · exact h1.2.2 a h b hb
-    · simp at h; subst h; exact fun e => hnp (e ▸ hb)
-
-theorem offer_rep {q : Q} {vs chain pool} (h : Rep q vs chain pool) (v : Int) :
-    ∃ pool', Rep (offer q v) (vs ++ [v]) (chain ++ [n_of q]) pool' := by
-  cases hg : generateNode q with
-  | mk q1 n =>
-  obtain ⟨pool', hr, hn, hnlt, hnn, hnp, hf, hl, hc⟩ := generateNode_spec h q1 n hg
-  obtain ⟨hnext, hprev, hpool, nd, lt, hval, hcount, hnode⟩ := hr
-  have hnc : n ∉ chain := fun h => hn (List.mem_append_left _ h)
-  have hnp' : n ∉ pool' := fun h => hn (List.mem_append_right _ h)
-  have hno : n_of q = n := by simp [n_of, hg]
-  rw [hno]
-  refine ⟨pool', ?_⟩
-  have hchainnd : chain.Nodup := (List.nodup_append.mp nd).1
-  have hlt' : ∀ a ∈ (chain ++ [n]) ++ pool', a < q1.fresh := by
-    intro a ha
-    rcases List.mem_append.mp ha with h | h
-    · rcases List.mem_append.mp h with h | h
-      · exact lt a (List.mem_append_left _ h)
-      · simp at h; subst h; exact hnlt
-    · exact lt a (List.mem_append_right _ h)
-  have hvalmap : (chain ++ [n]).map (upd q1.val n (some v)) = (vs ++ [v]).map some := by
-    rw [List.map_append, List.map_append, map_upd_of_not_mem _ _ _ _ hnc, hval]; simp
-  cases hlast : q1.last with
-  | none =>
-    -- empty queue
-    have hch : chain = [] := by
-      have := hprev.last_eq; rw [hlast] at this
-      cases chain with
-      | nil => rfl
-      | cons a l => simp [List.getLast?_cons] at this
-    subst hch
-    have hfirst : q1.first = none := by have := hnext.head; simpa using this
-    have : offer q v = { q1 with val := upd q1.val n (some v), count := q1.count + 1, first := some n, last := some n } := by
-      simp [offer, hg, hfirst, hlast]
-    rw [this]
-    refine ⟨?_, ?_, hpool, ?_, hlt', hvalmap, ?_, hnode⟩
-    · exact .cons n [] (by simp only; rw [hnn]; exact .nil)
-    · exact .cons n [] (by simp only; rw [hnp]; exact .nil)
-    · simpa using nodup_snoc_pool nd hn
-    · simp only; rw [hcount]; simp
-  | some l =>
-    have hgl : chain.getLast? = some l := by have := hprev.last_eq; rw [hlast] at this; exact this.symm
-    have hlmem : l ∈ chain := List.mem_of_getLast? hgl
-    have hne : chain ≠ [] := by intro e; subst e; simp at hgl
-    have hfirst : q1.first.isNone = false := by
-      have := hnext.head
-      cases chain with
-      | nil => exact absurd rfl hne
-      | cons a t => simp [this]
-    have : offer q v = { q1 with val := upd q1.val n (some v), count := q1.count + 1,
-                                 next := upd q1.next l (some n), prev := upd q1.prev n (some l), last := some n } := by
-      simp [offer, hg, hfirst, hlast]
-    rw [this]
-    have hlp : l ∉ pool' := by
-      intro hm
-      exact (List.nodup_append.mp nd).2.2 l hlmem l hm rfl
-    refine ⟨?_, ?_, ?_, nodup_snoc_pool nd hn, hlt', hvalmap, ?_, hnode⟩
-    · exact hnext.snoc n l hnc hnn hchainnd hgl
-    · have := (hlast ▸ hprev).push n (by simpa using hnc)
-      simpa [List.reverse_append] using this
-    · exact hpool.frame _ _ hlp
-    · simp only; rw [hcount]; simp
+        rcases List.mem_append.mp hm with h' | h'
+        · exact hn_chain h'
+        · exact hn_pool' h'
+      · exact h.lt m (List.mem_append_right _ List.mem_cons_self)
 
 end FpgoVerif.C06
